@@ -188,7 +188,19 @@ class Checker:
 
     # ------------------------------------------------------------- expressions
     def ty(self, e, env):
-        """Synthesised type term of expression e; raises Unk."""
+        """Synthesised type term of expression e; raises Unk.  A value whose
+        recorded type is a covariant projection `out X` is an X."""
+        r = self._ty(e, env)
+        hops = 0
+        while r[0] == 'w' and hops < 4:
+            if r[1] == COV and r[2] is not None:
+                r = r[2]
+            else:
+                raise Unk('value-of-projection-type')
+            hops += 1
+        return r
+
+    def _ty(self, e, env):
         ast = self.ast
         if isinstance(e, ast.BottomConstant):
             return ('bot',)
